@@ -30,8 +30,9 @@ ASSUMPTIONS = ['sampled correspondence: d<=4, <=4 segments, <=3 noise operators,
                'trace identity assumes a complete orthonormal Hermitian basis (completeness relation as hypothesis; '
                'satisfiable: Pauli d=2 example)']
 REL_TOL = 1e-8
-SIG_TL = 'c08-traceless-basis-nontraceless-oper'
-SIG_PC = 'c08-pc-nontraceless-oper'
+SIG_TL = 'c08-traceless-basis-nontraceless-oper'        # fixed by 2891db3 (classifier kept)
+SIG_PC = 'c08-pc-nontraceless-oper'                     # fixed by 2891db3 when control_matrix_pc is cached
+SIG_PC_UNCACHED = 'c08-pc-uncached-control-matrix-nontraceless-oper'
 
 HEADER = ("From Coq Require Import ZArith List.\n"
           "From FF Require Import Base.Ops Inst.Param Model.Consts Model.Numeric Model.Decay Model.Cumulant "
@@ -214,18 +215,32 @@ def predicates_total(c):
     return bad
 
 
-def predicates_pc(c):
-    p, om, S, ids, idx, shape = c['p'], c['om'], c['S'], c['ids'], c['idx'], c['shape']
-    bad = []
-    d = p.d
+def pc_outputs(c, pars):
+    """everything the pulse-correlation checks need; for c['uncached'] the pulse-correlation control matrix is dropped
+    (cleanup('greedy') keeps the pulse-correlation filter function) before the correlation infidelities are requested"""
+    p, om, S, ids = c['p'], c['om'], c['S'], c['ids']
     with warnings.catch_warnings():
         warnings.simplefilter('ignore')
+        Bpc = np.array(p._control_matrix_pc)
         tot = ff.infidelity(p, S, om, n_oper_identifiers=ids)
-        cor = ff.infidelity(p, S, om, n_oper_identifiers=ids, which='correlations')
         Gt = numeric.calculate_decay_amplitudes(p, S, om, ids)
-        Gc = numeric.calculate_decay_amplitudes(p, S, om, ids, which='correlations')
+        Gc = numeric.calculate_decay_amplitudes(p, S, om, ids, which='correlations', memory_parsimonious=pars)
         Kc = numeric.calculate_cumulant_function(p, S, om, ids, which='correlations')
         Kt = numeric.calculate_cumulant_function(p, S, om, ids)
+        if c.get('uncached'):
+            p.cleanup('greedy')
+        has_cm = bool(p.is_cached('control_matrix_pc'))
+        cor = ff.infidelity(p, S, om, n_oper_identifiers=ids, which='correlations')
+    return dict(Bpc=Bpc, tot=np.asarray(tot), Gt=np.asarray(Gt), Gc=np.asarray(Gc), Kc=np.asarray(Kc), Kt=np.asarray(Kt),
+                cor=np.asarray(cor), has_cm=has_cm, pars=pars)
+
+
+def predicates_pc(c, o=None):
+    p, idx = c['p'], c['idx']
+    o = o or pc_outputs(c, False)
+    bad = []
+    d = p.d
+    tot, cor, Gt, Gc, Kc, Kt = o['tot'], o['cor'], o['Gt'], o['Gc'], o['Kc'], o['Kt']
     s = max(np.abs(Gt).max(), 1e-300)
     if np.abs(Gc.sum((0, 1)) - Gt).max() > 1e-11 * max(s, np.abs(Gc).max()):
         bad.append(('pc_sum', 'c08-pc-sum-decay', 'pulse-correlation decay amplitudes do not sum to the total'))
@@ -233,17 +248,19 @@ def predicates_pc(c):
         bad.append(('pc_sum', 'c08-pc-sum-cumulant', 'pulse-correlation cumulant functions do not sum to the total'))
     isc = max(np.abs(tot).max(), np.abs(cor).max(), 1e-300)
     nt = nontraceless_selected(p, idx)
+    open_class = nt and not o['has_cm']          # uncorrected branch: no cached pulse-correlation control matrix
     if np.abs(cor.sum((0, 1)) - tot).max() > 1e-10 * isc:
-        bad.append(('pc_infid_sum', SIG_PC if nt else 'c08-pc-sum',
-                    'pulse-correlation infidelities sum to %s, total %s' % (np.round(cor.sum((0, 1)).ravel()[:3], 6), np.round(tot.ravel()[:3], 6))))
+        bad.append(('pc_infid_sum', SIG_PC_UNCACHED if open_class else 'c08-pc-sum',
+                    'pulse-correlation infidelities sum to %s, total %s (control_matrix_pc cached: %s)'
+                    % (np.round(cor.sum((0, 1)).ravel()[:3], 6), np.round(tot.ravel()[:3], 6), o['has_cm'])))
     tkc = trace_K(Kc, d)
     if np.abs(cor - tkc).max() > 1e-10 * max(isc, np.abs(tkc).max()):
-        bad.append(('pc infidelity = -tr K/d^2', SIG_PC if nt else 'c08-pc-infid-vs-cumulant-trace',
+        bad.append(('pc infidelity = -tr K/d^2', SIG_PC_UNCACHED if open_class else 'c08-pc-infid-vs-cumulant-trace',
                     'correlation infidelities differ from -tr K_gh/d^2: max %.3g' % np.abs(cor - tkc).max()))
     tk = trace_K(Kt, d)
     if np.abs(tot - tk).max() > 1e-10 * max(isc, np.abs(tk).max()):
-        sig = SIG_TL if (p.basis.istraceless and nt) else 'c08-infid-vs-cumulant-trace'
-        bad.append(('infidelity = -tr K/d^2', sig, 'total infidelity %s vs -tr K/d^2 %s' % (np.round(tot.ravel()[:3], 6), np.round(tk.ravel()[:3], 6))))
+        bad.append(('infidelity = -tr K/d^2', 'c08-infid-vs-cumulant-trace', 'total infidelity %s vs -tr K/d^2 %s'
+                    % (np.round(tot.ravel()[:3], 6), np.round(tk.ravel()[:3], 6))))
     return bad
 
 
@@ -279,7 +296,7 @@ def coq_case_total(name, c, out, big):
            f"  let sp := {sp_lit(bshape, shape, 'O')} in\n"
            f"  let idx := {nat_list(idx)} in\n"
            f"  let G := decay_amplitudes O {cbool(opt[0])} {cbool(opt[1])} {na} {nk} {no} Bm Bm idx sp om in\n"
-           f"  let I := infidelity_total O {p.d} {cbool(bool(p.basis.istraceless))} {na} {nk} {no} Bm bs idx sp om in\n")
+           f"  let I := infidelity_total O {p.d} {na} {nk} {no} Bm bs idx sp om in\n")
     body = (f"  tadd (tally_eig O {p.d} {emit.tol_lit(1e-11 * hscale, big)} Hs Vs ev)\n"
             f"  (tadd (tallyR O {emit.tol_lit(REL_TOL * sG, big)} {rvec_lit(G.reshape(-1))}%Z (flat3 G))\n"
             f"        (tallyR O {emit.tol_lit(REL_TOL * sI, big)} {rvec_lit(infid.reshape(-1))}%Z I))")
@@ -294,7 +311,7 @@ def coq_case_total(name, c, out, big):
 def coq_case_pc(name, c, out, big):
     p, om, S, idx, shape = c['p'], c['om'], c['S'], c['idx'], c['shape']
     O = emit.ops(big)
-    Bpc = p._control_matrix_pc
+    Bpc = out['Bpc']
     npulse, na, nk, no = Bpc.shape
     bshape = np.broadcast_to(S, (len(idx),) * (shape - 1) + (no,)) if shape > 1 else S
     Gc, cor, Gt = out['Gc'], out['cor'], out['Gt']
@@ -309,7 +326,8 @@ def coq_case_pc(name, c, out, big):
             f"  let Gc := decay_amplitudes_pc O {cbool(out['pars'])} false {na} {nk} {no} Bpc idx sp om in\n"
             f"  let Bt := cm_pc_sum O {na} {nk} {no} Bpc in\n"
             f"  let Gt := decay_amplitudes O false false {na} {nk} {no} Bt Bt idx sp om in\n"
-            f"  let Ic := infidelity_pc O {p.d} {na} {nk} {no} Bpc idx sp om in\n"
+            f"  let bs := rmats O {carr_lit(np.asarray(p.basis.view(np.ndarray)))}%Z in\n"
+            f"  let Ic := infidelity_pc O {p.d} {cbool(out['has_cm'])} {na} {nk} {no} Bpc bs idx sp om in\n"
             f"  tadd (tallyR O {emit.tol_lit(REL_TOL * sG, big)} {rvec_lit(Gc.reshape(-1))}%Z (flat_pc Gc))\n"
             f"  (tadd (tallyR O {emit.tol_lit(REL_TOL * sG, big)} {rvec_lit(Gt.reshape(-1))}%Z (flat3 Gt))\n"
             f"        (tallyR O {emit.tol_lit(REL_TOL * sI, big)} {rvec_lit(cor.reshape(-1))}%Z (flat_pc1 Ic))).\n")
@@ -328,19 +346,9 @@ def impl_outputs_total(c, with_K):
     return dict(G=np.asarray(G), infid=np.asarray(infid), K=None if K is None else np.asarray(K))
 
 
-def impl_outputs_pc(c, pars):
-    p, om, S, ids = c['p'], c['om'], c['S'], c['ids']
-    with warnings.catch_warnings():
-        warnings.simplefilter('ignore')
-        Gc = numeric.calculate_decay_amplitudes(p, S, om, ids, which='correlations', memory_parsimonious=pars)
-        Gt = numeric.calculate_decay_amplitudes(p, S, om, ids)
-        cor = ff.infidelity(p, S, om, n_oper_identifiers=ids, which='correlations')
-    return dict(Gc=np.asarray(Gc), Gt=np.asarray(Gt), cor=np.asarray(cor), pars=pars)
-
-
 def case_input(c):
     p = c['p']
-    inp = dict(tags=c['tags'], omega=c['om'], spectrum=np.asarray(c['S'], dtype=complex), spectrum_full=np.asarray(c['Sfull'], dtype=complex),
+    inp = dict(uncached=bool(c.get('uncached', False)), tags=c['tags'], omega=c['om'], spectrum=np.asarray(c['S'], dtype=complex), spectrum_full=np.asarray(c['Sfull'], dtype=complex),
                shape=c['shape'], ids=c['ids'], idx=c['idx'], opt=list(c.get('opt', [])),
                basis=p.basis.view(np.ndarray), btype=p.basis.btype)
     if 'pulses' in c:
@@ -371,7 +379,7 @@ def rebuild(inp):
     shape = int(inp['shape'])
     c = dict(om=om, S=real_if(arr(inp['spectrum']), shape), Sfull=real_if(arr(inp['spectrum_full']), shape), shape=shape,
              ids=inp['ids'], idx=np.array(inp['idx'], dtype=int), tags=inp.get('tags', {}),
-             opt=tuple(bool(x) for x in inp.get('opt') or (False,) * 4))
+             opt=tuple(bool(x) for x in inp.get('opt') or (False,) * 4), uncached=bool(inp.get('uncached', False)))
     if 'pulses' in inp:
         c['pulses'] = [mk(pd) for pd in inp['pulses']]
         c['p'] = ff.concatenate(c['pulses'], calc_pulse_correlation_FF=True, omega=om)
@@ -404,12 +412,14 @@ def run(ctx):
     for i in range(n_pc):
         c = make_pc_case(r, ctx.thorough, i)
         inp = case_input(c)
-        for obs, sig, det in predicates_pc(c):
+        c['uncached'] = (i % 4 == 3)
+        inp = case_input(c)
+        out = pc_outputs(c, pars=bool(i % 2))
+        for obs, sig, det in predicates_pc(c, out):
             failures.append(dict(kind='prop', observable=obs, signature=sig, detail=det, input=inp))
-        out = impl_outputs_pc(c, pars=bool(i % 2))
         cases.append(('p', c, out, inp))
         t = c['tags']
-        key = 'pc/%s/%s/shape%d/%s/n%d' % (t['basis'], t['noise'], t['shape'], t['ids'], t['npulse'])
+        key = 'pc/%s/%s/shape%d/%s/n%d/%s' % (t['basis'], t['noise'], t['shape'], t['ids'], t['npulse'], 'uncached' if c['uncached'] else 'cached')
         if np.abs(out['Gc']).max() > 0:
             classes[key] = classes.get(key, 0) + 1
 
@@ -461,11 +471,12 @@ def search(ctx, broken):
     for i in range(200):
         if i % 4 == 3:
             c = make_pc_case(r, True, i)
+            c['uncached'] = (i % 8 == 7)
             bad = predicates_pc(c)
         else:
             c = make_case(r, True, i)
             bad = predicates_total(c)
-        known = {SIG_TL, SIG_PC}
+        known = {SIG_TL, SIG_PC, SIG_PC_UNCACHED}
         bad = [b for b in bad if b[1] not in known] or []
         if bad:
             out.append(dict(kind='prop', observable=bad[0][0], signature=bad[0][1], detail=bad[0][2], input=case_input(c),
